@@ -876,6 +876,11 @@ package parser
 
 //@ func (p *Parser) parseRightSideExpression
 //@   include ParseFrame
+// C02: the operand already parsed stays the left operand; under a pending '!(' the operator is the De Morgan dual
+//@   exit [C02:or-shape] (result2 == nil && old(p.curToken.Type) == token.OR) ==> (typeis(result0, ast.BinaryExpression) && as(result0, ast.BinaryExpression).Left == left
+//@        && as(result0, ast.BinaryExpression).Operator == (negated ? token.AND : token.OR) && as(result0, ast.BinaryExpression).Right == right)
+//@   exit [C02:and-shape] (result2 == nil && old(p.curToken.Type) == token.AND) ==> (grouped != nil && grouped.Left == left && grouped.Operator == (negated ? token.OR : token.AND) && grouped.Right == right)
+//@   ensures [C02:no-op] (old(p.curToken.Type) != token.AND && old(p.curToken.Type) != token.OR) ==> (result2 == nil && result0 == left)
 //@   ensures [C06:slot] result2 == nil ==> (ImpOK(result1) && (result1 == nil || fresh(result1)))
 //@   modifies holes
 //@   ensures [C06:complete] result2 == nil ==> ImpSize(result1) == holes - old(holes)
